@@ -285,3 +285,198 @@ Fixpoint hist_events (fx : bool) (p : params) (s : hstate) (xs : list (henv * hs
                    | Some (s', evs) => evs :: hist_events fx p s' r
                    end
   end.
+
+(* ================================================================ message level *)
+
+(** Votes enter the stores through the message server (keeper/msg_server.go AggregateExchangeRatePrevote /
+    AggregateExchangeRateVote / DelegateFeedConsent, after ValidateBasic), with the validator and feeder written
+    as STRINGS in the messages.  A bech32 string has exactly two accepted spellings — all lower-case (what
+    ValAddress.String() / AccAddress.String() produce: the canonical one) and all upper-case; everything else
+    (mixed case, wrong checksum, wrong prefix) is rejected by *AddressFromBech32.
+    [as_id] = the account / operator the string stands for, [as_sp] = how it is spelled. *)
+Inductive spelling := SpLower | SpUpper | SpBad.
+Record astr := mkAStr { as_id : nat; as_sp : spelling }.
+
+(** sdk.ValAddressFromBech32 / sdk.AccAddressFromBech32: the identity map "message string -> validator" *)
+Definition decode (s : astr) : option nat := match as_sp s with SpBad => None | _ => Some (as_id s) end.
+(** ValAddress.String() *)
+Definition canon (id : nat) : astr := mkAStr id SpLower.
+
+Definition spelling_eqb (a b : spelling) : bool :=
+  match a, b with SpLower, SpLower | SpUpper, SpUpper | SpBad, SpBad => true | _, _ => false end.
+Definition astr_eqb (a b : astr) : bool := Nat.eqb (as_id a) (as_id b) && spelling_eqb (as_sp a) (as_sp b).
+
+(** GetAggregateVoteHash(salt, exchangeRatesStr, voter.String()), symbolically (sha256 taken as injective on
+    its three arguments): ids of the salt and of the exchange-rate string, and the validator STRING the
+    committer hashed over *)
+Record chash := mkHash { ch_salt : nat; ch_rates : nat; ch_val : astr }.
+Definition chash_eqb (a b : chash) : bool :=
+  Nat.eqb (ch_salt a) (ch_salt b) && Nat.eqb (ch_rates a) (ch_rates b) && astr_eqb (ch_val a) (ch_val b).
+
+(** store entries as the message server writes them: key = decoded operator address, value carries the
+    [Voter] STRING (types.AggregateExchangeRateVote.Voter / AggregateExchangeRatePrevote.Voter) *)
+Record svote := mkSV { sv_key : nat; sv_voter : astr; sv_tuples : list (nat * Z) }.
+Record sprev := mkSPrev { sp_key : nat; sp_voter : astr; sp_hash : chash; sp_submit : Z }.
+Record mstate := mkMS {
+  ms_rates : list rate_entry; ms_votes : list svote; ms_prevotes : list sprev;
+  ms_feeders : list (nat * nat) (* FeederDelegations: operator -> delegate *) }.
+
+(** messages.  [*_bonded] / [dm_isval] are answers of the staking module at delivery (StakingKeeper.Validator(valAddr)
+    exists and IsBonded / exists), inputs like the rest of the staking view *)
+Record pmsg := mkPMsg { pm_validator : astr; pm_feeder : astr; pm_hash : chash; pm_bonded : bool }.
+Record vmsg := mkVMsg { vm_validator : astr; vm_feeder : astr; vm_salt : nat; vm_rates : nat;
+                        vm_tuples : list (nat * Z) (* what the exchange-rate string [vm_rates] spells *);
+                        vm_bonded : bool }.
+Record dmsg := mkDMsg { dm_operator : astr; dm_delegate : astr; dm_isval : bool }.
+Inductive omsg := MPrevote (m : pmsg) | MVote (m : vmsg) | MDelegate (m : dmsg).
+
+(** collections keyed by operator address, kept sorted by key (= store order); Insert overwrites *)
+Fixpoint put_svote (a : svote) (l : list svote) : list svote :=
+  match l with
+  | [] => [a]
+  | b :: r => if Nat.ltb (sv_key a) (sv_key b) then a :: l
+              else if Nat.eqb (sv_key a) (sv_key b) then a :: r
+              else b :: put_svote a r
+  end.
+Fixpoint put_sprev (a : sprev) (l : list sprev) : list sprev :=
+  match l with
+  | [] => [a]
+  | b :: r => if Nat.ltb (sp_key a) (sp_key b) then a :: l
+              else if Nat.eqb (sp_key a) (sp_key b) then a :: r
+              else b :: put_sprev a r
+  end.
+Definition del_sprev (v : nat) (l : list sprev) : list sprev := filter (fun b => negb (Nat.eqb (sp_key b) v)) l.
+Fixpoint find_sprev (v : nat) (l : list sprev) : option sprev :=
+  match l with
+  | [] => None
+  | b :: r => if Nat.eqb (sp_key b) v then Some b else find_sprev v r
+  end.
+Fixpoint put_feeder (x : nat * nat) (l : list (nat * nat)) : list (nat * nat) :=
+  match l with
+  | [] => [x]
+  | y :: r => if Nat.ltb (fst x) (fst y) then x :: l
+              else if Nat.eqb (fst x) (fst y) then x :: r
+              else y :: put_feeder x r
+  end.
+Fixpoint find_feeder (v : nat) (l : list (nat * nat)) : option nat :=
+  match l with
+  | [] => None
+  | y :: r => if Nat.eqb (fst y) v then Some (snd y) else find_feeder v r
+  end.
+
+(** Keeper.ValidateFeeder, first half: the validator's own account, or the account it delegated to *)
+Definition feeder_ok (fd : list (nat * nat)) (v f : nat) : bool :=
+  Nat.eqb f v || match find_feeder v fd with Some d => Nat.eqb d f | None => false end.
+
+(** the Voter string written into the store.  [fc = true]: the current code, valAddr.String() — the CANONICAL
+    spelling of the decoded address (types.NewAggregateExchangeRateVote(tuples, valAddr));
+    [fc = false]: the raw [msg.Validator] string *)
+Definition voter_string (fc : bool) (raw : astr) (v : nat) : astr := if fc then canon v else raw.
+
+(** MsgAggregateExchangeRateVote.ValidateBasic + ParseExchangeRateTuples: at least one tuple, no duplicate pair,
+    every rate a LegacyDec of at most 255+60 bits *)
+Fixpoint nodup_pairs (l : list (nat * Z)) : bool :=
+  match l with
+  | [] => true
+  | t :: r => negb (existsb (fun u => Nat.eqb (fst u) (fst t)) r) && nodup_pairs r
+  end.
+Definition RATE_BITS : Z := 2 ^ 315.
+Definition tuples_ok (ts : list (nat * Z)) : bool :=
+  (match ts with [] => false | _ => true end) && nodup_pairs ts && forallb (fun t => Z.abs (snd t) <? RATE_BITS) ts.
+
+Definition deliver_prevote (fc : bool) (h : Z) (s : mstate) (m : pmsg) : mstate * bool :=
+  match decode (pm_validator m), decode (pm_feeder m) with
+  | Some v, Some f =>
+      if feeder_ok (ms_feeders s) v f && pm_bonded m
+      then (mkMS (ms_rates s) (ms_votes s)
+                 (put_sprev (mkSPrev v (voter_string fc (pm_validator m) v) (pm_hash m) h) (ms_prevotes s))
+                 (ms_feeders s), true)
+      else (s, false)
+  | _, _ => (s, false)
+  end.
+
+(** the reveal: a prevote of the same validator from the immediately preceding vote period whose hash is the
+    hash of (salt, exchange-rate string, valAddr.String()); every pair whitelisted; then Votes.Insert and
+    Prevotes.Delete *)
+Definition deliver_vote (fc : bool) (p : params) (wl : list nat) (h : Z) (s : mstate) (m : vmsg) : mstate * bool :=
+  match decode (vm_validator m), decode (vm_feeder m) with
+  | Some v, Some f =>
+      match find_sprev v (ms_prevotes s) with
+      | Some pv =>
+          if feeder_ok (ms_feeders s) v f && vm_bonded m &&
+             (h / p_vote_period p - sp_submit pv / p_vote_period p =? 1) &&
+             tuples_ok (vm_tuples m) && forallb (fun t => memb (fst t) wl) (vm_tuples m) &&
+             chash_eqb (sp_hash pv) (mkHash (vm_salt m) (vm_rates m) (canon v))
+          then (mkMS (ms_rates s)
+                     (put_svote (mkSV v (voter_string fc (vm_validator m) v) (vm_tuples m)) (ms_votes s))
+                     (del_sprev v (ms_prevotes s)) (ms_feeders s), true)
+          else (s, false)
+      | None => (s, false)
+      end
+  | _, _ => (s, false)
+  end.
+
+Definition deliver_delegate (s : mstate) (m : dmsg) : mstate * bool :=
+  match decode (dm_operator m), decode (dm_delegate m) with
+  | Some v, Some d =>
+      if dm_isval m
+      then (mkMS (ms_rates s) (ms_votes s) (ms_prevotes s) (put_feeder (v, d) (ms_feeders s)), true)
+      else (s, false)
+  | _, _ => (s, false)
+  end.
+
+Definition deliver (fc : bool) (p : params) (wl : list nat) (h : Z) (s : mstate) (m : omsg) : mstate * bool :=
+  match m with
+  | MPrevote m => deliver_prevote fc h s m
+  | MVote m => deliver_vote fc p wl h s m
+  | MDelegate m => deliver_delegate s m
+  end.
+
+(** the messages of one block in order; the list of accept flags *)
+Fixpoint deliver_all (fc : bool) (p : params) (wl : list nat) (h : Z) (s : mstate) (ms : list omsg) : mstate * list bool :=
+  match ms with
+  | [] => (s, [])
+  | m :: r => let (s1, a) := deliver fc p wl h s m in
+              let (s2, acc) := deliver_all fc p wl h s1 r in (s2, a :: acc)
+  end.
+
+(** groupVotesByPair looks the voter up with [validatorPerformances[aggregateVote.Voter]]: a map keyed by
+    operator.String() — the canonical strings of the eligible validators — indexed by the STORED string.  A stored
+    vote whose Voter string is not canonical is therefore never found; a canonical one is found iff the validator
+    it spells is eligible. *)
+Definition votes_seen (l : list svote) : list avote :=
+  flat_map (fun sv => match as_sp (sv_voter sv) with
+                      | SpLower => [mkAVote (as_id (sv_voter sv)) (sv_tuples sv)]
+                      | _ => []
+                      end) l.
+
+(** the same store read by VALIDATOR IDENTITY (the key) *)
+Definition to_avote (sv : svote) : avote := mkAVote (sv_key sv) (sv_tuples sv).
+Definition to_prevote (sp : sprev) : nat * Z := (sp_key sp, sp_submit sp).
+
+(** one block: messages, then EndBlocker at height [mp_h] *)
+Record mstep := mkMStep { mp_msgs : list omsg; mp_h : Z }.
+
+Definition keep_sprev (p : params) (h : Z) (x : sprev) : bool := h <? sp_submit x + p_vote_period p.
+
+Definition mhist_step (fc fx : bool) (p : params) (e : henv) (s : mstate) (x : mstep)
+  : list bool * option (mstate * list (nat * Z)) :=
+  let (s1, acc) := deliver_all fc p (he_whitelist e) (mp_h x) s (mp_msgs x) in
+  match end_block fx p (env_state e (votes_seen (ms_votes s1)) (ms_rates s1)) (mp_h x) with
+  | Panic => (acc, None)
+  | Done rs evs =>
+      if is_period_last (mp_h x) (p_vote_period p)
+      then (acc, Some (mkMS rs [] (filter (keep_sprev p (mp_h x)) (ms_prevotes s1)) (ms_feeders s1), evs))
+      else (acc, Some (mkMS rs (ms_votes s1) (ms_prevotes s1) (ms_feeders s1), evs))
+  end.
+
+(** accept flags and published events of each block of a message-level history (stops after a panic) *)
+Fixpoint mhist_events (fc fx : bool) (p : params) (s : mstate) (xs : list (henv * mstep))
+  : list (list bool * list (nat * Z)) :=
+  match xs with
+  | [] => []
+  | (e, x) :: r => match mhist_step fc fx p e s x with
+                   | (acc, None) => [(acc, [])]
+                   | (acc, Some (s', evs)) => (acc, evs) :: mhist_events fc fx p s' r
+                   end
+  end.
